@@ -39,6 +39,13 @@ static int vf_arg_less(long leng);
 static int vf_arg_unput(void);
 static int vf_arg_sc(void);
 static void vf_did_less(int n, const char *text, long leng, int lineno);
+#ifdef VF_LESS3
+#if defined(VF_API_NR)
+static void vf_less3(int k);
+#else
+static void vf_less3(int k, void *yyscanner);
+#endif
+#endif
 static void vf_did_unput(int c, const char *text, long leng, int lineno);
 static void vf_did_input(int c, int lineno);
 static void vf_did_more(void);
